@@ -6,11 +6,13 @@
 #include "aln_struct.h"
 #define ALN_SEQPROFILE_IMPORT
 #include "aln_seqprofile.h"
+#include "kalign_verif.h"
 #define MAX(a, b) (a > b ? a : b)
 #define MAX3(a,b,c) MAX(MAX(a,b),c)
 
 int aln_seqprofile_foward(struct aln_mem* m)
 {
+        KALIGN_VERIF_EVENT(KV_EV_FWD_BEGIN, m, NULL, 1, 0, 0);
         struct states* s = m->f;
         const float* prof1 = m->prof1;
         const uint8_t* seq2 = m->seq2;
@@ -112,11 +114,13 @@ int aln_seqprofile_foward(struct aln_mem* m)
                 }
         }
         //prof1 -= m->enda << 6;
+        KALIGN_VERIF_EVENT(KV_EV_FWD_END, m, NULL, 1, 0, 0);
         return OK;
 }
 
 int aln_seqprofile_backward(struct aln_mem* m)
 {
+        KALIGN_VERIF_EVENT(KV_EV_BWD_BEGIN, m, NULL, 1, 0, 0);
         struct states* s = m->b;
         const float* prof1 = m->prof1;
         const uint8_t* seq2 = m->seq2;
@@ -213,11 +217,13 @@ int aln_seqprofile_backward(struct aln_mem* m)
                         s[j].gb = MAX(s[j].gb,ca)+prof1[29];
                 }
         }
+        KALIGN_VERIF_EVENT(KV_EV_BWD_END, m, NULL, 1, 0, 0);
         return OK;
 }
 
 int aln_seqprofile_meetup(struct aln_mem* m,int old_cor[],int* meet,int* t,float* score)
 {
+        KALIGN_VERIF_EVENT(KV_EV_MEET_BEGIN, m, NULL, 1, 0, 0);
         struct states* f = m->f;
         struct states* b = m->b;
         const float* prof1 = m->prof1;
@@ -335,5 +341,6 @@ int aln_seqprofile_meetup(struct aln_mem* m,int old_cor[],int* meet,int* t,float
         *meet = c;
         *t = transition;
         *score = max;
+        KALIGN_VERIF_EVENT(KV_EV_MEET_END, m, NULL, 1, c, transition);
         return OK;
 }
